@@ -26,6 +26,10 @@ type C03Exp struct {
 	Returns   []int  `json:"returns"`   // value indexes per result
 	Providers []bool `json:"providers"` // providers: which results come from a per-result function
 	Times     int    `json:"times"`     // 0: any number of times
+	// the same, as tokens ("*" = mock.Anything): what the Lean driver reads
+	MatcherToks    []string `json:"matcherToks"`
+	VarMatcherToks []string `json:"varMatcherToks"`
+	ReturnToks     []string `json:"returnToks"`
 }
 
 type C03Op struct {
@@ -34,6 +38,10 @@ type C03Op struct {
 	M      int     `json:"m"`
 	Args   []int   `json:"args,omitempty"`
 	VarArg int     `json:"vararg"` // value index in the slice table; -1: no variadic argument written
+	// the same, as tokens
+	ArgToks     []string `json:"argToks"`
+	VarTok      string   `json:"varTok"`
+	VarElemToks []string `json:"varElemToks"`
 }
 
 type c03Input struct {
@@ -134,9 +142,41 @@ func (c03) Generate(c *Ctx) []any {
 				in.Ops = append(in.Ops, call)
 			}
 		}
+		fillTokens(&in)
 		out = append(out, in)
 	}
 	return out
+}
+
+func fillTokens(in *c03Input) {
+	for k := range in.Ops {
+		op := &in.Ops[k]
+		m := in.Methods[op.M]
+		if op.Op == "call" {
+			op.ArgToks, op.VarElemToks = []string{}, []string{}
+			for i, t := range m.Params {
+				op.ArgToks = append(op.ArgToks, tokenOf(t, op.Args[i]))
+			}
+			if m.Variadic >= 0 {
+				op.VarTok = tokenOf(m.Variadic, canonVar(m, op.VarArg))
+				for _, x := range varElems(m, op.VarArg) {
+					op.VarElemToks = append(op.VarElemToks, tokenOf(bTypes[m.Variadic].SliceOf, x))
+				}
+				if !in.unrolled() && len(op.VarElemToks) > 0 {
+					op.VarTok = tokenOf(m.Variadic, op.VarArg)
+				}
+			}
+			continue
+		}
+		e := op.Exp
+		all := c03Matchers(m, e)
+		e.MatcherToks = append([]string{}, all[:len(m.Params)]...)
+		e.VarMatcherToks = append([]string{}, all[len(m.Params):]...)
+		e.ReturnToks = []string{}
+		for i, t := range m.Results {
+			e.ReturnToks = append(e.ReturnToks, tokenOf(t, e.Returns[i]))
+		}
+	}
 }
 
 func c03Config(in *c03Input) string {
